@@ -121,14 +121,19 @@ def main():
                        stderr=subprocess.STDOUT)
                 out = r.stdout.decode(errors="replace")
                 viol = [l for l in out.splitlines() if l.startswith("VIOLATION") or "violation detail" in l]
+                summ = [l for l in out.splitlines() if f"{cid} {tier} seed=" in l]
                 print(f"== ./check {cid} --tier {tier} on seeded/{pid}/{name}: rc={r.returncode} "
                       f"({time.time()-t0:.0f}s)")
                 for l in viol[:6]:
                     print("   ", l[:300])
+                skipped = sum(int(l.split(" skipped(budget)")[0].split()[-1]) for l in out.splitlines()
+                              if " skipped(budget)" in l)
+                print("   ", (summ[-1] if summ else "no summary line"), f"[skipped(budget)={skipped}]")
                 if r.returncode == 2:
                     print(out[-2500:])
                 results[cid] = dict(rc=r.returncode, tier=tier, seed=os.environ.get("VERIF_SEED", "1"),
-                                    detected=r.returncode == 1,
+                                    detected=r.returncode == 1, summary=(summ[-1] if summ else ""),
+                                    skipped_after_budget=skipped,
                                     buckets=[l.strip()[:200] for l in viol if "violation detail" in l][:6])
             m = json.load(open(os.path.join(sdir, "meta.json")))
             chk = m.setdefault("verif", {}).setdefault("checks", {})
